@@ -106,7 +106,7 @@ Outcome(ev, pre) ==
       [] ev.op = "Delete" -> DeleteOutcome(st, [c |-> ev.c, n |-> ev.n, im |-> CondOf(ev.im)],
                                            CurTag(pre, ev.c, ev.n))
       [] ev.op = "Mk"     -> MkOutcome(st, [c |-> ev.c, kind |-> ev.kind])
-      [] ev.op = "DeleteColl" -> DeleteCollOutcome(st, [c |-> ev.c])
+      [] ev.op = "DeleteColl" -> DeleteCollOutcome(st, [c |-> ev.c, im |-> CondOf(ev.im)], ev.cet)
       [] ev.op = "Proppatch"  -> ProppatchOutcome(st, [c |-> ev.c, ins |-> InsOK(ev)])
       [] ev.op = "Restart" -> RestartOutcome(st, ev.defaults)
       [] OTHER -> MustSucceed(st)        \* reads, Lock, Unlock: no change
@@ -353,7 +353,10 @@ JudgeGit(ev, pre, post, i) ==
                   d == Len(g.log) - Len(pg.log)
                   \* a PROPPATCH with k performed instructions is k property changes: up to k
                   \* commits, and with k >= 2 the changes may cancel out (set, then remove)
-                  k == IF ev.op = "Proppatch" /\ ev.c = c THEN Len(InsOK(ev)) ELSE 1 IN
+                  k == IF ev.op = "Proppatch" /\ ev.c = c THEN Len(InsOK(ev)) ELSE 1
+                  \* every performed instruction re-sends the value the property already has
+                  allnoop == ev.op = "Proppatch" /\ ev.c = c /\ InsOK(ev) # <<>>
+                             /\ \A j \in DOMAIN InsOK(ev) : InsOK(ev)[j].noop IN
               (IF ~IsPrefix(pg.log, g.log)
                  THEN Viol("C09", [w |-> "history-rewritten", c |-> c], i) ELSE {})
               \cup
@@ -367,6 +370,9 @@ JudgeGit(ev, pre, post, i) ==
               \cup
               (IF IsPrefix(pg.log, g.log) /\ changed /\ ~(d >= 1 /\ (d = 1 \/ d <= k))
                  THEN Viol("C09", [w |-> "change-without-exactly-one-commit", c |-> c, commits |-> d], i) ELSE {})
+              \cup
+              (IF IsPrefix(pg.log, g.log) /\ allnoop /\ d # 0
+                 THEN Viol("C09", [w |-> "commit-for-a-property-rewrite-that-changes-nothing", c |-> c, commits |-> d], i) ELSE {})
               \cup
               (IF IsPrefix(pg.log, g.log) /\ ~changed /\ ~(d = 0 \/ (k >= 2 /\ d <= k))
                  THEN Viol("C09", [w |-> "commit-without-change", c |-> c, commits |-> d], i) ELSE {})
